@@ -282,6 +282,60 @@ def main(tier, seed):
                                   found_input=False)
                 else:
                     res.violations += 1
+    # ---- STRING tokens (Str.cc GetLiteralStr / sdaiString.cc STEPread vs coq/P21Str.v)
+    # independent description of a well-formed literal: plain characters, '', \\, \S\<any character>, \X\hh,
+    # \X2\(hhhh)+\X0\, \X4\(hhhhhhhh)+\X0\, \P<A-I>\
+    WF = re.compile(r"^'(?:[^'\\]|''|\\\\|\\S\\.|\\X\\[0-9A-F]{2}|\\X2\\(?:[0-9A-F]{4})+\\X0\\|\\X4\\(?:[0-9A-F]{8})+\\X0\\|\\P[A-I]\\)*'", re.S)
+    Q, BS = "'", "\\"
+    salpha = [Q, BS, "S", "a", ","]
+    sbodies = []
+    for n in range(0, (6 if tier == "quick" else 8)):
+        for tup in itertools.product(salpha, repeat=n):
+            sbodies.append(Q + "".join(tup))
+    PAGE = BS + "S" + BS
+    sbodies += [Q + "a" + PAGE + Q + "b" + Q, Q + PAGE + Q + Q, Q + PAGE + Q + Q + Q, Q + BS + BS + "S" + BS + BS + Q,
+                Q + "C:" + BS + BS + "DOCS" + BS + BS + Q, Q + BS + "X2" + BS + "00E9" + BS + "X0" + BS + Q, Q + BS + "X" + BS + "E9" + Q,
+                Q + BS + "PA" + BS + "x" + Q, Q + BS + "X4" + BS + "0001F600" + BS + "X0" + BS + Q,
+                Q + "it" + Q + Q + "s" + Q, Q + Q, Q + Q + Q + Q, Q + Q + Q, Q, Q + "a", Q + "a" + Q + Q, "abc", "$", "  " + Q + "x" + Q, "\t" + Q + "x y" + Q,
+                Q + "z" * 5000 + Q, Q + "a\nb" + Q, Q + PAGE + BS + Q, Q + PAGE + "S" + Q, Q + "S" + BS + Q, Q + BS + "S" + Q, Q + "x" + PAGE + Q]
+    sdatas = [b + suf for b in sbodies for suf in (",", ")", " ,1", "", Q, "," + Q + "y" + Q)]
+    reqs = ["T %s" % hexs(d) for d in sdatas]
+    rc_i, io = run(exe, reqs)
+    rc_m, mo = run(drv, reqs)
+    if rc_i != 0:
+        res.violation("h_lex crashed (rc=%d) on the T stream" % rc_i, {"kind": "T", "rc": rc_i}, found_input=False)
+    for k, d in enumerate(sdatas):
+        total += 1
+        if k >= len(io) or not io[k].strip():
+            break
+        ia, _ = parse_ans(io[k])
+        kinds_hist["T"] = kinds_hist.get("T", 0) + 1
+        sev_hist[ia[2]] = sev_hist.get(ia[2], 0) + 1
+        body = d.lstrip(" \t\n")
+        msg = None
+        m = WF.match(body)
+        if m and not body[m.end():].startswith(Q):
+            lit = m.group(0)
+            nontrivial.add(("T", d))
+            if not (ia[0] == 1 and bytes.fromhex(ia[1]).decode("latin-1") == lit and ia[2] == 3 and ia[3] == len(body) - len(lit)):
+                msg = "well-formed literal %r is not read to its extent: stored %r, severity %d, %d bytes left (expected %d)" % (
+                    lit, bytes.fromhex(ia[1]).decode("latin-1") if ia[0] else None, ia[2], ia[3], len(body) - len(lit))
+        elif body.startswith(Q) and re.match(r"^'(?:[^']|'')*$", body, re.S) and (PAGE + Q) not in body:
+            # no closing quote at all (apostrophes only in pairs up to the end): never a silent success
+            if ia[2] >= 3:
+                msg = "unterminated literal %r is read without an error (stored %r)" % (d, ia[1])
+        if msg:
+            oracle_fail += 1
+            res.violation("STRING: %s" % msg, {"kind": "T", "input": d, "input_hex": hexs(d), "impl": io[k], "replay": "echo 'T %s' | %s" % (hexs(d), exe)})
+        mline = mo[k].split() if k < len(mo) else []
+        if mline[:5] != io[k].split()[:5]:
+            disagreements += 1
+            if disagreements <= 5:
+                res.violation("model P21Str.v and SDAI_String::STEPread disagree on %r: impl %r model %r" % (d, io[k], mo[k] if k < len(mo) else None),
+                              {"kind": "T", "input": d, "input_hex": hexs(d), "theorem_or_correspondence": "correspondence C09: coq/P21Str.v vs Str.cc GetLiteralStr"},
+                              found_input=False)
+            else:
+                res.violations += 1
     # writer
     r = rng(seed, "c09w")
     wv = writer_cases(r, tier)
@@ -342,7 +396,8 @@ def main(tier, seed):
         "rule": "for each of ReadInteger/ReadReal/ReadNumber: corpus + ALL strings of length <= %d over the kind's alphabet "
                 "%s, each followed by every suffix of %s (delimiter contexts), + boundary tokens (64-bit range, double "
                 "range, 18..200 digits); writer: exponent grid -300..300 x boundary mantissas, integers near 2^k and 10^k, "
-                "random reals, each read back; non-trivial = non-empty token that is assigned or flagged" % (
+                "random reals, each read back; ENUMERATION / BOOLEAN / LOGICAL words and STRING bodies (alphabet ' \\ S a ,) exhaustively up to the "
+                "tier's length in every delimiter context; non-trivial = non-empty token that is assigned or flagged" % (
                     maxlen, {k: "".join(v) for k, v in ALPHA.items()}, SUFFIX),
         "exhaustive": True,
         "samples": samples or [{"note": "no sample drawn"}],
